@@ -124,48 +124,74 @@ def aliasPath (p : PS) (shortenTo : String) : Bytes × PS :=
 /-- `isWhitespace` (parser/utils.go) -/
 def isWhitespaceLit (s : Bytes) : Bool := s.all isWs
 
+/-- the prefix parse functions (`parser.prefixParseFns`), given the functions they call;
+    `none` = none is registered for the current token -/
+def prefixBody (pe : Nat → PS → Expr × PS) (pl : TT → PS → List Expr × PS)
+    (po : Token → List (Bytes × Expr) → PS → Expr × PS) (p : PS) : Option (Expr × PS) :=
+  match p.cur.ty with
+  | .IDENT => some (.ident p.cur p.cur.lit, p)
+  | .INT =>
+    match parseInt64 p.cur.lit with
+    | some v => some (.int p.cur v, p)
+    | none => some (.bad, p.err p.cur.errorLine "ErrCouldNotParseAs" [p.cur.lit, b "INT"])
+  | .FLOAT =>
+    match parseFloat64 p.cur.lit with
+    | some v => some (.float p.cur v, p)
+    | none => some (.bad, p.err p.cur.errorLine "ErrCouldNotParseAs" [p.cur.lit, b "FLOAT"])
+  | .STR => some (.str p.cur p.cur.lit, p)
+  | .NIL => some (.nil p.cur, p)
+  | .TRUE => some (.bool p.cur true, p)
+  | .FALSE => some (.bool p.cur false, p)
+  | .SUB | .NOT => some (.pre p.cur p.cur.lit (pe PREFIX p.next).1, (pe PREFIX p.next).2)
+  | .LPAREN =>
+    if ((pe LOWEST p.next).2.expectPeek .RPAREN).1 then
+      some ((pe LOWEST p.next).1, ((pe LOWEST p.next).2.expectPeek .RPAREN).2)
+    else some (.bad, ((pe LOWEST p.next).2.expectPeek .RPAREN).2)
+  | .LBRACKET => some (.arr p.cur (pl .RBRACKET p).1, (pl .RBRACKET p).2)
+  | .LBRACE =>
+    if p.next.curIs .RBRACE then some (.obj p.cur [], p.next)
+    else some (po p.cur [] p.next)
+  | _ => none
+
+/-- the infix parse functions (`parser.infixParseFns`); `p1.cur` is the operator token -/
+def infixBody (pe : Nat → PS → Expr × PS) (pl : TT → PS → List Expr × PS) (left : Expr) (p1 : PS) : Expr × PS :=
+  if isBinaryOp p1.cur.ty then
+    -- parseInfixExp
+    if p1.next.curIs .RBRACES then (.bad, p1.next.err p1.next.cur.errorLine "ErrExpectedExpression" [])
+    else (.inf p1.cur p1.cur.lit left (pe p1.curPrecedence p1.next).1, (pe p1.curPrecedence p1.next).2)
+  else if p1.cur.ty == .QUESTION then
+    -- parseTernaryExp
+    if !((pe TERNARY p1.next).2.expectPeek .COLON).1 then (.bad, ((pe TERNARY p1.next).2.expectPeek .COLON).2)
+    else
+      (.tern p1.cur left (pe TERNARY p1.next).1 (pe LOWEST ((pe TERNARY p1.next).2.expectPeek .COLON).2.next).1,
+        (pe LOWEST ((pe TERNARY p1.next).2.expectPeek .COLON).2.next).2)
+  else if p1.cur.ty == .LBRACKET then
+    -- parseIndexExp
+    if ((pe LOWEST p1.next).2.expectPeek .RBRACKET).1 then
+      (.index p1.cur left (pe LOWEST p1.next).1, ((pe LOWEST p1.next).2.expectPeek .RBRACKET).2)
+    else (.bad, ((pe LOWEST p1.next).2.expectPeek .RBRACKET).2)
+  else if p1.cur.ty == .INC || p1.cur.ty == .DEC then
+    (.post p1.cur p1.cur.lit left, p1)
+  else
+    -- parseDotExp
+    if !(p1.expectPeek .IDENT).1 then (.bad, (p1.expectPeek .IDENT).2)
+    else if (p1.expectPeek .IDENT).2.peekIs .LPAREN then
+      -- parseCallExp
+      (.call (p1.expectPeek .IDENT).2.cur left (p1.expectPeek .IDENT).2.cur.lit
+          (pl .RPAREN ((p1.expectPeek .IDENT).2.expectPeek .LPAREN).2).1,
+        (pl .RPAREN ((p1.expectPeek .IDENT).2.expectPeek .LPAREN).2).2)
+    else (.dot p1.cur left (p1.expectPeek .IDENT).2.cur.lit, (p1.expectPeek .IDENT).2)
+
 mutual
 
 /-- `parseExpression(precedence)` -/
 def parseExpression : Nat → Nat → PS → Expr × PS
   | 0, _, p => (.bad, p.outOfFuel)
   | fuel + 1, prec, p =>
-    let t := p.cur
-    let (left, p1) : Expr × PS :=
-      match t.ty with
-      | .IDENT => (.ident t t.lit, p)
-      | .INT =>
-        match parseInt64 t.lit with
-        | some v => (.int t v, p)
-        | none => (.bad, p.err t.errorLine "ErrCouldNotParseAs" [t.lit, b "INT"])
-      | .FLOAT =>
-        match parseFloat64 t.lit with
-        | some v => (.float t v, p)
-        | none => (.bad, p.err t.errorLine "ErrCouldNotParseAs" [t.lit, b "FLOAT"])
-      | .STR => (.str t t.lit, p)
-      | .NIL => (.nil t, p)
-      | .TRUE => (.bool t true, p)
-      | .FALSE => (.bool t false, p)
-      | .SUB | .NOT =>
-        let (r, p1) := parseExpression fuel PREFIX p.next
-        (.pre t t.lit r, p1)
-      | .LPAREN =>
-        let (e, p1) := parseExpression fuel LOWEST p.next
-        let (ok, p2) := p1.expectPeek .RPAREN
-        if ok then (e, p2) else (.bad, p2)
-      | .LBRACKET =>
-        let (es, p1) := parseExprList fuel .RBRACKET p
-        (.arr t es, p1)
-      | .LBRACE =>
-        let p1 := p.next
-        if p1.curIs .RBRACE then (.obj t [], p1)
-        else parseObjLoop fuel t [] p1
-      | _ => (.bad, p.err t.errorLine "ErrNoPrefixParseFunc" [b (tokenString t.ty)])
+    match prefixBody (parseExpression fuel) (parseExprList fuel) (parseObjLoop fuel) p with
     -- Go returns nil right after recording the "no prefix parse function" error
-    match t.ty with
-    | .IDENT | .INT | .FLOAT | .STR | .NIL | .TRUE | .FALSE | .SUB | .NOT | .LPAREN | .LBRACKET | .LBRACE =>
-      prattLoop fuel prec left p1
-    | _ => (left, p1)
+    | none => (.bad, p.err p.cur.errorLine "ErrNoPrefixParseFunc" [b (tokenString p.cur.ty)])
+    | some r => prattLoop fuel prec r.1 r.2
 
 /-- the `for` loop of `parseExpression` -/
 def prattLoop : Nat → Nat → Expr → PS → Expr × PS
@@ -174,44 +200,8 @@ def prattLoop : Nat → Nat → Expr → PS → Expr × PS
     if p.peekIs .RBRACES || p.peekIs .SEMI || p.peekIs .RPAREN || !(prec < p.peekPrecedence) then (left, p)
     else if !hasInfix p.peek.ty then (left, p)
     else
-      let p1 := p.next
-      let t := p1.cur
-      let (left', p2) : Expr × PS :=
-        if isBinaryOp t.ty then
-          -- parseInfixExp
-          let prec' := p1.curPrecedence
-          let p2 := p1.next
-          if p2.curIs .RBRACES then (.bad, p2.err p2.cur.errorLine "ErrExpectedExpression" [])
-          else
-            let (r, p3) := parseExpression fuel prec' p2
-            (.inf t t.lit left r, p3)
-        else if t.ty == .QUESTION then
-          -- parseTernaryExp
-          let (a, p2) := parseExpression fuel TERNARY p1.next
-          let (ok, p3) := p2.expectPeek .COLON
-          if !ok then (.bad, p3)
-          else
-            let (bb, p4) := parseExpression fuel LOWEST p3.next
-            (.tern t left a bb, p4)
-        else if t.ty == .LBRACKET then
-          -- parseIndexExp
-          let (i, p2) := parseExpression fuel LOWEST p1.next
-          let (ok, p3) := p2.expectPeek .RBRACKET
-          if ok then (.index t left i, p3) else (.bad, p3)
-        else if t.ty == .INC || t.ty == .DEC then
-          (.post t t.lit left, p1)
-        else
-          -- parseDotExp
-          let (ok, p2) := p1.expectPeek .IDENT
-          if !ok then (.bad, p2)
-          else if p2.peekIs .LPAREN then
-            -- parseCallExp
-            let it := p2.cur
-            let (_, p3) := p2.expectPeek .LPAREN
-            let (args, p4) := parseExprList fuel .RPAREN p3
-            (.call it left it.lit args, p4)
-          else (.dot t left p2.cur.lit, p2)
-      prattLoop fuel prec left' p2
+      prattLoop fuel prec (infixBody (parseExpression fuel) (parseExprList fuel) left p.next).1
+        (infixBody (parseExpression fuel) (parseExprList fuel) left p.next).2
 
 /-- `parseExpressionList(endTok)`; called with `curToken` at the opening token -/
 def parseExprList : Nat → TT → PS → List Expr × PS
@@ -257,8 +247,19 @@ def parseObjLoop : Nat → Token → List (Bytes × Expr) → PS → Expr × PS
 
 end
 
+/-- the parser's recursive functions at one fuel level (what a function body may call) -/
+structure PCallees where
+  expr : Nat → PS → Expr × PS
+  exprList : TT → PS → List Expr × PS
+  stmt : PS → Stmt × PS
+  body : PS → List Stmt × PS
+  block : List Stmt → PS → List Stmt × PS
+  ifTail : Token → Expr → List Stmt → List (Expr × List Stmt) → PS → Stmt × PS
+  slots : List SlotUse → PS → List SlotUse × PS
+  skipHtml : PS → PS
+
 /-- `parseEmbeddedCode` -/
-def parseEmbeddedCode (fuel : Nat) (p : PS) : Stmt × PS :=
+def parseEmbeddedCode (k : PCallees) (p : PS) : Stmt × PS :=
   let p1 := p.next
   if p1.curIs .RBRACES then (.bad, p1.err p1.cur.errorLine "ErrEmptyBraces" [])
   else if p1.cur.ty == .IDENT && p1.peekIs .ASSIGN then
@@ -268,292 +269,302 @@ def parseEmbeddedCode (fuel : Nat) (p : PS) : Stmt × PS :=
     let p3 := p2.next
     if p3.curIs .RBRACES then (.bad, p3.err p3.cur.errorLine "ErrExpectedExpression" [])
     else
-      let (v, p4) := parseExpression fuel LOWEST p3
+      let (v, p4) := k.expr LOWEST p3
       (.assign t t.lit v, p4)
   else
     -- parseExpressionStmt
-    let (e, p2) := parseExpression fuel LOWEST p1
+    let (e, p2) := k.expr LOWEST p1
     let t := p2.cur
     (.expr t e, if p2.peekIs .RBRACES then p2.next else p2)
 
 /-- `@xxx(` + expression : used by `@breakIf` / `@continueIf` -/
-def parseCondDirective (fuel : Nat) (p : PS) (mk : Token → Expr → Stmt) : Stmt × PS :=
+def parseCondDirective (k : PCallees) (p : PS) (mk : Token → Expr → Stmt) : Stmt × PS :=
   let t := p.cur
   let (ok, p1) := p.expectPeek .LPAREN
   if !ok then (.bad, p1)
   else
-    let (c, p2) := parseExpression fuel LOWEST p1.next
+    let (c, p2) := k.expr LOWEST p1.next
     (mk t c, p2)
 
-mutual
-
-/-- `parseStatement` -/
-def parseStatement : Nat → PS → Stmt × PS
-  | 0, p => (.bad, p.outOfFuel)
-  | fuel + 1, p =>
-    let t := p.cur
-    match t.ty with
-    | .HTML => (.html t, p)
-    | .LBRACES | .SEMI => parseEmbeddedCode fuel p
-    | .IF => parseIfStmt fuel p
-    | .FOR => parseForStmt fuel p
-    | .EACH => parseEachStmt fuel p
-    | .USE =>
-      let (ok, p1) := p.expectPeek .LPAREN
-      if !ok then (.bad, p1)
-      else
-        let p2 := p1.next
-        let nameTok := p2.cur
-        let (name, p3) := aliasPath p2 "layouts"
-        (.use t name, { p3 with useName := some (t, name) } |> fun q => (nameTok, q).2)
-    | .RESERVE =>
-      let (ok, p1) := p.expectPeek .LPAREN
-      if !ok then (.bad, p1)
-      else
-        let p2 := p1.next
-        let name := p2.cur.lit
-        let rid := p2.nextId
-        (.reserve t name rid, { p2 with reserves := mapSet p2.reserves name rid, nextId := rid + 1 })
-    | .INSERT => parseInsertStmt fuel p
-    | .BREAK_IF => parseCondDirective fuel p .breakIf
-    | .CONTINUE_IF => parseCondDirective fuel p .continueIf
-    | .COMPONENT => parseComponentStmt fuel p
-    | .SLOT =>
-      -- parseSlotStmt (a slot placeholder inside a component file)
-      if !p.peekIs .LPAREN then (.slot t [] none, p)
-      else
-        let p1 := p.next.next
-        let name := p1.cur.lit
-        let (ok, p2) := p1.expectPeek .RPAREN
-        if ok then (.slot t name none, p2) else (.bad, p2)
-    | .DUMP =>
-      let (ok, p1) := p.expectPeek .LPAREN
-      if !ok then (.bad, p1)
-      else
-        let (args, p2) := parseExprList fuel .RPAREN p1
-        (.dump t args, p2)
-    | .BREAK => (.brk t, p)
-    | .CONTINUE => (.cont t, p)
-    | _ => (.bad, p)
-
-/-- `parseBody`: the block that follows the current token (empty when a block end comes next) -/
-def parseBody : Nat → PS → List Stmt × PS
-  | 0, p => ([], p.outOfFuel)
-  | fuel + 1, p =>
-    if p.peekIs .ELSE || p.peekIs .ELSE_IF || p.peekIs .END then ([], p)
-    else parseBlockStmt fuel [] p.next
-
-/-- `parseBlockStmt`; the accumulated statements are `acc` -/
-def parseBlockStmt : Nat → List Stmt → PS → List Stmt × PS
-  | 0, acc, p => (acc, p.outOfFuel)
-  | fuel + 1, acc, p =>
-    if p.curIs .END then (acc, p)
-    else if p.curIs .EOF then
-      (acc, p.err p.cur.errorLine "ErrWrongNextToken" [b (tokenString .END), b (tokenString .EOF)])
-    else if p.curIs .ILLEGAL then
-      (acc, p.err p.cur.errorLine "ErrIllegalToken" [p.cur.lit])
-    else
-      let (s, p1) := parseStatement fuel p
-      let acc' := if s.isBad then acc else acc ++ [s]
-      if p1.peekIs .ELSE || p1.peekIs .ELSE_IF || p1.peekIs .END then (acc', p1)
-      else parseBlockStmt fuel acc' p1.next
-
 /-- `parseIfStmt` -/
-def parseIfStmt : Nat → PS → Stmt × PS
-  | 0, p => (.bad, p.outOfFuel)
-  | fuel + 1, p =>
-    let t := p.cur
-    let (ok, p1) := p.expectPeek .LPAREN
-    if !ok then (.bad, p1)
+def parseIfStmt (k : PCallees) (p : PS) : Stmt × PS :=
+  let t := p.cur
+  let (ok, p1) := p.expectPeek .LPAREN
+  if !ok then (.bad, p1)
+  else
+    let (c, p2) := k.expr LOWEST p1.next
+    let (ok, p3) := p2.expectPeek .RPAREN
+    if !ok then (.bad, p3)
     else
-      let (c, p2) := parseExpression fuel LOWEST p1.next
-      let (ok, p3) := p2.expectPeek .RPAREN
-      if !ok then (.bad, p3)
-      else
-        let (cons, p4) := parseBody fuel p3
-        parseIfTail fuel t c cons [] p4
-
-/-- the `@elseif` loop, `@else` and `@end` of `parseIfStmt` -/
-def parseIfTail : Nat → Token → Expr → List Stmt → List (Expr × List Stmt) → PS → Stmt × PS
-  | 0, _, _, _, _, p => (.bad, p.outOfFuel)
-  | fuel + 1, t, c, cons, alts, p =>
-    if p.peekIs .ELSE_IF then
-      -- parseElseIfStmt
-      let (_, p1) := p.expectPeek .ELSE_IF
-      let p2 := p1.next.next
-      let (ec, p3) := parseExpression fuel LOWEST p2
-      let (ok, p4) := p3.expectPeek .RPAREN
-      if !ok then (.bad, p4)
-      else
-        let (body, p5) := parseBody fuel p4
-        parseIfTail fuel t c cons (alts ++ [(ec, body)]) p5
-    else if p.peekIs .ELSE then
-      -- parseAlternativeBlock
-      let (alt, p1) := parseBody fuel p.next
-      if p1.peekIs .ELSE_IF then
-        (.bad, p1.err p1.peek.errorLine "ErrElseifCannotFollowElse" [])
-      else
-        let (ok, p2) := p1.expectPeek .END
-        if ok then (.ifS t c cons alts (some alt), p2) else (.bad, p2)
-    else
-      let (ok, p1) := p.expectPeek .END
-      if ok then (.ifS t c cons alts none, p1) else (.bad, p1)
+      let (cons, p4) := k.body p3
+      k.ifTail t c cons [] p4
 
 /-- the part shared by `parseForStmt` and `parseEachStmt` after the header:
     block, optional `@else` block, `@end` -/
-def parseLoopBody : Nat → PS → Option (List Stmt × Option (List Stmt)) × PS
-  | 0, p => (none, p.outOfFuel)
-  | fuel + 1, p =>
-    let (body, p1) := parseBody fuel p
-    let (alt, p2) : Option (List Stmt) × PS :=
-      if p1.peekIs .ELSE then
-        let (a, q) := parseBody fuel p1.next
-        (some a, q)
-      else (none, p1)
-    let (ok, p3) := p2.expectPeek .END
-    if ok then (some (body, alt), p3) else (none, p3)
+def parseLoopBody (k : PCallees) (p : PS) : Option (List Stmt × Option (List Stmt)) × PS :=
+  let (body, p1) := k.body p
+  let (alt, p2) : Option (List Stmt) × PS :=
+    if p1.peekIs .ELSE then
+      let (a, q) := k.body p1.next
+      (some a, q)
+    else (none, p1)
+  let (ok, p3) := p2.expectPeek .END
+  if ok then (some (body, alt), p3) else (none, p3)
 
 /-- `parseForStmt` -/
-def parseForStmt : Nat → PS → Stmt × PS
-  | 0, p => (.bad, p.outOfFuel)
-  | fuel + 1, p =>
-    let t := p.cur
-    let (ok, p1) := p.expectPeek .LPAREN
-    if !ok then (.bad, p1)
+def parseForStmt (k : PCallees) (p : PS) : Stmt × PS :=
+  let t := p.cur
+  let (ok, p1) := p.expectPeek .LPAREN
+  if !ok then (.bad, p1)
+  else
+    let (init, p2) : Option Stmt × PS :=
+      if !p1.peekIs .SEMI then
+        let (s, q) := parseEmbeddedCode k p1
+        (if s.isBad then none else some s, q)
+      else (none, p1)
+    let (ok, p3) := p2.expectPeek .SEMI
+    if !ok then (.bad, p3)
     else
-      let (init, p2) : Option Stmt × PS :=
-        if !p1.peekIs .SEMI then
-          let (s, q) := parseEmbeddedCode fuel p1
-          (if s.isBad then none else some s, q)
-        else (none, p1)
-      let (ok, p3) := p2.expectPeek .SEMI
-      if !ok then (.bad, p3)
+      let (cond, p4) : Option Expr × PS :=
+        if !p3.peekIs .SEMI then
+          let (e, q) := k.expr LOWEST p3.next
+          (if e.isBad then none else some e, q)
+        else (none, p3)
+      let (ok, p5) := p4.expectPeek .SEMI
+      if !ok then (.bad, p5)
       else
-        let (cond, p4) : Option Expr × PS :=
-          if !p3.peekIs .SEMI then
-            let (e, q) := parseExpression fuel LOWEST p3.next
-            (if e.isBad then none else some e, q)
-          else (none, p3)
-        let (ok, p5) := p4.expectPeek .SEMI
-        if !ok then (.bad, p5)
+        let (post, p6) : Option Stmt × PS :=
+          if !p5.peekIs .RPAREN then
+            let (s, q) := parseEmbeddedCode k p5
+            (if s.isBad then none else some s, q)
+          else (none, p5)
+        let (ok, p7) := p6.expectPeek .RPAREN
+        if !ok then (.bad, p7)
         else
-          let (post, p6) : Option Stmt × PS :=
-            if !p5.peekIs .RPAREN then
-              let (s, q) := parseEmbeddedCode fuel p5
-              (if s.isBad then none else some s, q)
-            else (none, p5)
-          let (ok, p7) := p6.expectPeek .RPAREN
-          if !ok then (.bad, p7)
-          else
-            match parseLoopBody fuel p7 with
-            | (some (body, alt), p8) => (.forS t init cond post body alt, p8)
-            | (none, p8) => (.bad, p8)
+          match parseLoopBody k p7 with
+          | (some (body, alt), p8) => (.forS t init cond post body alt, p8)
+          | (none, p8) => (.bad, p8)
 
 /-- `parseEachStmt` -/
-def parseEachStmt : Nat → PS → Stmt × PS
-  | 0, p => (.bad, p.outOfFuel)
-  | fuel + 1, p =>
-    let t := p.cur
+def parseEachStmt (k : PCallees) (p : PS) : Stmt × PS :=
+  let t := p.cur
+  let (ok, p1) := p.expectPeek .LPAREN
+  if !ok then (.bad, p1)
+  else
+    let p2 := p1.next
+    let var := p2.cur.lit
+    let (ok, p3) := p2.expectPeek .IN
+    if !ok then (.bad, p3)
+    else
+      let (arr, p4) := k.expr LOWEST p3.next
+      let (ok, p5) := p4.expectPeek .RPAREN
+      if !ok then (.bad, p5)
+      else
+        match parseLoopBody k p5 with
+        | (some (body, alt), p6) => (.eachS t var arr body alt, p6)
+        | (none, p6) => (.bad, p6)
+
+/-- `parseInsertStmt` -/
+def parseInsertStmt (k : PCallees) (p : PS) : Stmt × PS :=
+  let t := p.cur
+  let (ok, p1) := p.expectPeek .LPAREN
+  if !ok then (.bad, p1)
+  else
+    let p2 := p1.next
+    let name := p2.cur.lit
+    if (mapGet p2.inserts name).isSome then
+      (.bad, p2.err t.errorLine "ErrDuplicateInserts" [name])
+    else if p2.peekIs .COMMA then
+      let (arg, p3) := k.expr LOWEST p2.next.next
+      let argO := if arg.isBad then none else some arg
+      (.insert t name argO none,
+        { p3 with inserts := mapSet p3.inserts name { tok := t, name, arg := argO, block := none } })
+    else
+      let (ok, p3) := p2.expectPeek .RPAREN
+      if !ok then (.bad, p3)
+      else
+        let (blk, p4) := k.body p3
+        (.insert t name none (some blk),
+          { p4 with inserts := mapSet p4.inserts name { tok := t, name, arg := none, block := some blk } })
+
+/-- `parseComponentStmt` -/
+def parseComponentStmt (k : PCallees) (p : PS) : Stmt × PS :=
+  let t := p.cur
+  let (ok, p1) := p.expectPeek .LPAREN
+  if !ok then (.bad, p1)
+  else
+    let (name, p2) := aliasPath p1.next "components"
+    let (argR, p3) : Option (Option (List (Bytes × Expr))) × PS :=
+      if p2.peekIs .COMMA then
+        let (e, q) := k.expr LOWEST p2.next.next
+        match e with
+        | .obj _ pairs => (some (some pairs), q)
+        | _ => (none, q.err q.cur.errorLine "ErrExpectedObjectLiteral" [q.cur.lit])
+      else (some none, p2)
+    match argR with
+    | none => (.bad, p3)
+    | some arg =>
+      let (ok, p4) := p3.expectPeek .RPAREN
+      if !ok then (.bad, p4)
+      else
+        let (slots, p5) : List SlotUse × PS :=
+          if p4.peekIs .SLOT then k.slots [] p4.next
+          else if p4.peekIs .HTML && isWhitespaceLit p4.peek.lit then
+            let q := p4.next
+            if q.peekIs .SLOT then k.slots [] q.next else ([], p4)
+          else ([], p4)
+        let cid := p5.nextId
+        (.component t name arg cid,
+          { p5 with components := p5.components ++ [{ tok := t, name, cid, slots }], nextId := cid + 1 })
+
+/-- `parseStatement` -/
+def statementBody (k : PCallees) (p : PS) : Stmt × PS :=
+  let t := p.cur
+  match t.ty with
+  | .HTML => (.html t, p)
+  | .LBRACES | .SEMI => parseEmbeddedCode k p
+  | .IF => parseIfStmt k p
+  | .FOR => parseForStmt k p
+  | .EACH => parseEachStmt k p
+  | .USE =>
     let (ok, p1) := p.expectPeek .LPAREN
     if !ok then (.bad, p1)
     else
       let p2 := p1.next
-      let var := p2.cur.lit
-      let (ok, p3) := p2.expectPeek .IN
-      if !ok then (.bad, p3)
-      else
-        let (arr, p4) := parseExpression fuel LOWEST p3.next
-        let (ok, p5) := p4.expectPeek .RPAREN
-        if !ok then (.bad, p5)
-        else
-          match parseLoopBody fuel p5 with
-          | (some (body, alt), p6) => (.eachS t var arr body alt, p6)
-          | (none, p6) => (.bad, p6)
-
-/-- `parseInsertStmt` -/
-def parseInsertStmt : Nat → PS → Stmt × PS
-  | 0, p => (.bad, p.outOfFuel)
-  | fuel + 1, p =>
-    let t := p.cur
+      let (name, p3) := aliasPath p2 "layouts"
+      (.use t name, { p3 with useName := some (t, name) })
+  | .RESERVE =>
     let (ok, p1) := p.expectPeek .LPAREN
     if !ok then (.bad, p1)
     else
       let p2 := p1.next
       let name := p2.cur.lit
-      if (mapGet p2.inserts name).isSome then
-        (.bad, p2.err t.errorLine "ErrDuplicateInserts" [name])
-      else if p2.peekIs .COMMA then
-        let (arg, p3) := parseExpression fuel LOWEST p2.next.next
-        let argO := if arg.isBad then none else some arg
-        (.insert t name argO none,
-          { p3 with inserts := mapSet p3.inserts name { tok := t, name, arg := argO, block := none } })
-      else
-        let (ok, p3) := p2.expectPeek .RPAREN
-        if !ok then (.bad, p3)
-        else
-          let (blk, p4) := parseBody fuel p3
-          (.insert t name none (some blk),
-            { p4 with inserts := mapSet p4.inserts name { tok := t, name, arg := none, block := some blk } })
-
-/-- `parseComponentStmt` -/
-def parseComponentStmt : Nat → PS → Stmt × PS
-  | 0, p => (.bad, p.outOfFuel)
-  | fuel + 1, p =>
-    let t := p.cur
+      let rid := p2.nextId
+      (.reserve t name rid, { p2 with reserves := mapSet p2.reserves name rid, nextId := rid + 1 })
+  | .INSERT => parseInsertStmt k p
+  | .BREAK_IF => parseCondDirective k p .breakIf
+  | .CONTINUE_IF => parseCondDirective k p .continueIf
+  | .COMPONENT => parseComponentStmt k p
+  | .SLOT =>
+    -- parseSlotStmt (a slot placeholder inside a component file)
+    if !p.peekIs .LPAREN then (.slot t [] none, p)
+    else
+      let p1 := p.next.next
+      let name := p1.cur.lit
+      let (ok, p2) := p1.expectPeek .RPAREN
+      if ok then (.slot t name none, p2) else (.bad, p2)
+  | .DUMP =>
     let (ok, p1) := p.expectPeek .LPAREN
     if !ok then (.bad, p1)
     else
-      let (name, p2) := aliasPath p1.next "components"
-      let (argR, p3) : Option (Option (List (Bytes × Expr))) × PS :=
-        if p2.peekIs .COMMA then
-          let (e, q) := parseExpression fuel LOWEST p2.next.next
-          match e with
-          | .obj _ pairs => (some (some pairs), q)
-          | _ => (none, q.err q.cur.errorLine "ErrExpectedObjectLiteral" [q.cur.lit])
-        else (some none, p2)
-      match argR with
-      | none => (.bad, p3)
-      | some arg =>
-        let (ok, p4) := p3.expectPeek .RPAREN
-        if !ok then (.bad, p4)
-        else
-          let (slots, p5) : List SlotUse × PS :=
-            if p4.peekIs .SLOT then parseSlots fuel [] p4.next
-            else if p4.peekIs .HTML && isWhitespaceLit p4.peek.lit then
-              let q := p4.next
-              if q.peekIs .SLOT then parseSlots fuel [] q.next else ([], p4)
-            else ([], p4)
-          let cid := p5.nextId
-          (.component t name arg cid,
-            { p5 with components := p5.components ++ [{ tok := t, name, cid, slots }], nextId := cid + 1 })
+      let (args, p2) := k.exprList .RPAREN p1
+      (.dump t args, p2)
+  | .BREAK => (.brk t, p)
+  | .CONTINUE => (.cont t, p)
+  | _ => (.bad, p)
+
+/-- `parseBody`: the block that follows the current token (empty when a block end comes next) -/
+def bodyBody (k : PCallees) (p : PS) : List Stmt × PS :=
+  if p.peekIs .ELSE || p.peekIs .ELSE_IF || p.peekIs .END then ([], p)
+  else k.block [] p.next
+
+/-- `parseBlockStmt`; the accumulated statements are `acc` -/
+def blockStmtBody (k : PCallees) (acc : List Stmt) (p : PS) : List Stmt × PS :=
+  if p.curIs .END then (acc, p)
+  else if p.curIs .EOF then
+    (acc, p.err p.cur.errorLine "ErrWrongNextToken" [b (tokenString .END), b (tokenString .EOF)])
+  else if p.curIs .ILLEGAL then
+    (acc, p.err p.cur.errorLine "ErrIllegalToken" [p.cur.lit])
+  else
+    let (s, p1) := k.stmt p
+    let acc' := if s.isBad then acc else acc ++ [s]
+    if p1.peekIs .ELSE || p1.peekIs .ELSE_IF || p1.peekIs .END then (acc', p1)
+    else k.block acc' p1.next
+
+/-- the `@elseif` loop, `@else` and `@end` of `parseIfStmt` -/
+def ifTailBody (k : PCallees) (t : Token) (c : Expr) (cons : List Stmt) (alts : List (Expr × List Stmt)) (p : PS) :
+    Stmt × PS :=
+  if p.peekIs .ELSE_IF then
+    -- parseElseIfStmt
+    let (_, p1) := p.expectPeek .ELSE_IF
+    let p2 := p1.next.next
+    let (ec, p3) := k.expr LOWEST p2
+    let (ok, p4) := p3.expectPeek .RPAREN
+    if !ok then (.bad, p4)
+    else
+      let (body, p5) := k.body p4
+      k.ifTail t c cons (alts ++ [(ec, body)]) p5
+  else if p.peekIs .ELSE then
+    -- parseAlternativeBlock
+    let (alt, p1) := k.body p.next
+    if p1.peekIs .ELSE_IF then
+      (.bad, p1.err p1.peek.errorLine "ErrElseifCannotFollowElse" [])
+    else
+      let (ok, p2) := p1.expectPeek .END
+      if ok then (.ifS t c cons alts (some alt), p2) else (.bad, p2)
+  else
+    let (ok, p1) := p.expectPeek .END
+    if ok then (.ifS t c cons alts none, p1) else (.bad, p1)
 
 /-- `parseSlots` -/
+def slotsBody (k : PCallees) (acc : List SlotUse) (p : PS) : List SlotUse × PS :=
+  if !p.curIs .SLOT then (acc, p)
+  else
+    let t := p.cur
+    let (hdr, p1) : Option Bytes × PS :=
+      if p.peekIs .LPAREN then
+        let q := p.next.next
+        let name := q.cur.lit
+        let (ok, q1) := q.expectPeek .RPAREN
+        if ok then (some name, q1) else (none, q1)
+      else (some [], p)
+    match hdr with
+    | none => ([], p1)
+    | some name =>
+      let (body, p2) := k.body p1
+      let p3 := p2.next.next
+      k.slots (acc ++ [{ tok := t, name, body }]) (k.skipHtml p3)
+
+/-- `for p.curTokenIs(token.HTML) { p.nextToken() }` -/
+def skipHtmlBody (k : PCallees) (p : PS) : PS :=
+  if p.curIs .HTML then k.skipHtml p.next else p
+
+mutual
+def parseStatement : Nat → PS → Stmt × PS
+  | 0, p => (.bad, p.outOfFuel)
+  | fuel + 1, p =>
+    statementBody ⟨parseExpression fuel, parseExprList fuel, parseStatement fuel, parseBody fuel, parseBlockStmt fuel,
+      parseIfTail fuel, parseSlots fuel, skipHtml fuel⟩ p
+def parseBody : Nat → PS → List Stmt × PS
+  | 0, p => ([], p.outOfFuel)
+  | fuel + 1, p =>
+    bodyBody ⟨parseExpression fuel, parseExprList fuel, parseStatement fuel, parseBody fuel, parseBlockStmt fuel,
+      parseIfTail fuel, parseSlots fuel, skipHtml fuel⟩ p
+def parseBlockStmt : Nat → List Stmt → PS → List Stmt × PS
+  | 0, acc, p => (acc, p.outOfFuel)
+  | fuel + 1, acc, p =>
+    blockStmtBody ⟨parseExpression fuel, parseExprList fuel, parseStatement fuel, parseBody fuel, parseBlockStmt fuel,
+      parseIfTail fuel, parseSlots fuel, skipHtml fuel⟩ acc p
+def parseIfTail : Nat → Token → Expr → List Stmt → List (Expr × List Stmt) → PS → Stmt × PS
+  | 0, _, _, _, _, p => (.bad, p.outOfFuel)
+  | fuel + 1, t, c, cons, alts, p =>
+    ifTailBody ⟨parseExpression fuel, parseExprList fuel, parseStatement fuel, parseBody fuel, parseBlockStmt fuel,
+      parseIfTail fuel, parseSlots fuel, skipHtml fuel⟩ t c cons alts p
 def parseSlots : Nat → List SlotUse → PS → List SlotUse × PS
   | 0, acc, p => (acc, p.outOfFuel)
   | fuel + 1, acc, p =>
-    if !p.curIs .SLOT then (acc, p)
-    else
-      let t := p.cur
-      let (hdr, p1) : Option Bytes × PS :=
-        if p.peekIs .LPAREN then
-          let q := p.next.next
-          let name := q.cur.lit
-          let (ok, q1) := q.expectPeek .RPAREN
-          if ok then (some name, q1) else (none, q1)
-        else (some [], p)
-      match hdr with
-      | none => ([], p1)
-      | some name =>
-        let (body, p2) := parseBody fuel p1
-        let p3 := p2.next.next
-        parseSlots fuel (acc ++ [{ tok := t, name, body }]) (skipHtml fuel p3)
-
-/-- `for p.curTokenIs(token.HTML) { p.nextToken() }` -/
+    slotsBody ⟨parseExpression fuel, parseExprList fuel, parseStatement fuel, parseBody fuel, parseBlockStmt fuel,
+      parseIfTail fuel, parseSlots fuel, skipHtml fuel⟩ acc p
 def skipHtml : Nat → PS → PS
   | 0, p => p.outOfFuel
-  | fuel + 1, p => if p.curIs .HTML then skipHtml fuel p.next else p
-
+  | fuel + 1, p =>
+    skipHtmlBody ⟨parseExpression fuel, parseExprList fuel, parseStatement fuel, parseBody fuel, parseBlockStmt fuel,
+      parseIfTail fuel, parseSlots fuel, skipHtml fuel⟩ p
 end
+
+/-- the parser's functions at fuel `f` -/
+def pcalleesAt (f : Nat) : PCallees :=
+  ⟨parseExpression f, parseExprList f, parseStatement f, parseBody f, parseBlockStmt f, parseIfTail f, parseSlots f, skipHtml f⟩
 
 /-- the loop of `ParseProgram`; `none` = Go returned nil after an ILLEGAL token -/
 def parseProgramLoop : Nat → List Stmt → PS → Option (List Stmt) × PS
